@@ -397,3 +397,10 @@ MUTANTS.setdefault('C05', []).extend([
     ('create-without-excl', 'src/passthrough/mod.rs', "let flags_excl = flags | libc::O_CREAT | libc::O_EXCL | libc::O_NOFOLLOW;", "let flags_excl = flags | libc::O_CREAT | libc::O_NOFOLLOW;"),
     ('create-records-adjusted-flags', 'src/passthrough/sync_io.rs', "let data = HandleData::new(entry.inode, file, args.flags);", "let data = HandleData::new(entry.inode, file, self.get_writeback_open_flags(args.flags as i32) as u32);"),
 ])
+
+# the order on file handles, the DAX handlers and the readdir wrappers of the passthrough fs (unit fhcmp); the rest of the transports incl. FuseChannel::get_request (unit transrest)
+from vx import fhcmp_mutants_proposed as _FH
+from vx import transrest_mutants_proposed as _TR
+for _m in (_FH, _TR):
+    for _k, _v in _m.MUTANTS.items():
+        MUTANTS.setdefault(_k, []).extend(_v)
